@@ -275,13 +275,14 @@ def headingLevel (level offset max : Int) : Int :=
   let l := if max > 0 ∧ l > max then max else l
   if l > 6 then 6 else l
 
-/-- heading arithmetic of `rag.(*Chunk).ToMarkdownWithOptions`: level 0 means 2; no cap at 6
-of its own (the configured maximum is the cap) -/
+/-- heading arithmetic of `rag.(*Chunk).ToMarkdownWithOptions`: level 0 means 2; offset, floor 1,
+configured maximum, and (since the fix of the worktree) the cap at 6 -/
 def headingLevelRag (level offset max : Int) : Int :=
   let l := if level = 0 then 2 else level
   let l := l + offset
   let l := if l < 1 then 1 else l
-  if max > 0 ∧ l > max then max else l
+  let l := if max > 0 ∧ l > max then max else l
+  if l > 6 then 6 else l
 
 /-- `strings.Repeat("#", level) + " " + text` -/
 def atxLine (level : Nat) (text : Str) : Str := List.replicate level 35 ++ 32 :: text
